@@ -190,8 +190,9 @@ def plan_renames(modname, tree, table=None):
                     ok = h["kind"] == w["kind"] and h["arity"] == w["arity"]
                 elif o == "" and owner != "":
                     # moved out of the class
-                    drop = 0 if w["kind"] == "static" else 1
-                    ok = h["kind"] == "function" and h["arity"] == w["arity"] - drop
+                    # a static method keeps its parameters; a method loses self / cls - or keeps it as an explicit parameter
+                    ok = h["kind"] == "function" and (h["arity"] == w["arity"] if w["kind"] == "static"
+                                                      else h["arity"] in (w["arity"] - 1, w["arity"]))
                 elif owner == "" and o != "":
                     add = 0 if h["kind"] == "static" else 1
                     ok = h["arity"] == w["arity"] + add
